@@ -18,7 +18,7 @@ func outEvent(text string, p prog) string {
 }
 
 var soupTokens = []string{"mov", "dat", "add", "jmp", "spl", "mul", "seq", "nop", "equ", "org", "end", "for", "rof", "x", "y", "lbl", "0", "1", "7", "8000", "-1",
-	"#", "$", "@", "<", ">", "*", "{", "}", ",", ":", "+", "-", "/", "%", "(", ")", ";c", "\n", "\n", " ", ".f", ".i", ".ab", "mov.i", "dat.f", "CORESIZE", "MAXLENGTH", "==", "&&", "!", "=", "|", "\x1a", "\t"}
+	"#", "$", "@", "<", ">", "*", "{", "}", ",", ":", "+", "-", "/", "%", "(", ")", ";c", "\n", "\n", " ", ".f", ".i", ".ab", "mov.i", "dat.f", "CORESIZE", "MAXLENGTH", "==", "&&", "!", "=", "|", "\x1a", "\t", "\u00e9", "\u03bbx", ";assert 1 ; r"}
 
 func cmdOuts(args []string) {
 	fs := flag.NewFlagSet("outs", flag.ExitOnError)
